@@ -302,7 +302,8 @@ def kripke_sx(K, num=None):
     num = num or (lambda v: v)
     g = graph_sx(K, num)
     init = [num(s) for s in K.S0]
-    lab = [[num(s), [Q(str(a)) for a in sorted(K._labels[s], key=str)]] for s in K._labels]
+    # label entries of NON-states (possible after replace_labelling_function) are not part of the structure
+    lab = [[num(s), [Q(str(a)) for a in sorted(K._labels[s], key=str)]] for s in K._labels if s in K._next]
     return [g, init, lab]
 
 
